@@ -1049,6 +1049,52 @@ def gen_churn(rnd, asserts, pool, tg, depth, mk_assert, steps, maxd=4):
     return hist
 
 
+def gen_layered(rnd, tier="quick", opts=None, named=False):
+    """Incremental 'facts, then rules, then query' script: a unit fact at level 0, one implication per pushed level and the
+    negated conclusion at the innermost level; the refutation needs clauses of every level (assumption conflict over several
+    frame literals, root-level theory deductions that falsify literals of later clauses)."""
+    lk = rnd.choice(["QF_LRA", "QF_LIA", "QF_UFLRA", "QF_RDL", "QF_IDL", "QF_UF", "PROP", "QF_UFLIA"])
+    L = LOGICS[lk]
+    sig = gen_sig(rnd, L, small=True)
+    tg = TermGen(rnd, L, sig, big=False, let=False)
+    nums = [x for x in ("Int", "Real") if len(sig.vars.get(x, [])) >= 2]
+    k = rnd.randint(2, 4)
+
+    def fact_and_contra():
+        if nums and rnd.random() < 0.7:
+            srt = rnd.choice(nums)
+            x, y = rnd.sample(sig.vars[srt], 2)
+            base = x if (rnd.random() < 0.4 and not L["dl"]) else "(- %s %s)" % (x, y)
+            lit = (lambda v: int_lit(v)) if srt == "Int" else (lambda v: real_lit(rnd, v))
+            c = rnd.randint(-3, 3)
+            return "(<= %s %s)" % (base, lit(c)), "(> %s %s)" % (base, lit(c + rnd.randint(0, 4)))
+        b = rnd.choice(sig.vars["Bool"])
+        return b, "(not %s)" % b
+    cmds = []
+    nm = [0]
+
+    def A(t):
+        nm[0] += 1
+        return ["assert-named", t, "n%d" % nm[0]] if named else ["assert", t]
+    f, nf = fact_and_contra()
+    cmds.append(A(f))
+    prev_neg = nf
+    for i in range(k):
+        cmds.append(["push", 1])
+        g, ng = fact_and_contra()
+        cmds.append(A("(or %s %s)" % (prev_neg, g) if rnd.random() < 0.8 else "(or %s %s %s)" % (prev_neg, g, rnd.choice(sig.vars["Bool"]))))
+        if rnd.random() < 0.3:
+            cmds.append(["check-sat"])
+        prev_neg = ng
+    cmds.append(["push", 1])
+    cmds.append(A(prev_neg))
+    cmds.append(["check-sat"])
+    for _ in range(rnd.randint(0, 2)):
+        cmds.append(["pop", 1])
+        cmds.append(["check-sat"])
+    return {"options": list(opts or []), "logic": L["name"], "lk": lk, "decls": list(sig.decls), "cmds": cmds}
+
+
 def gen_ksat(rnd, named=True, nmin=8, nmax=14, opts=None):
     """Random k-SAT near the threshold over Bool constants (unsat proofs with real search)."""
     n = rnd.randint(nmin, nmax)
